@@ -23,11 +23,26 @@ impl<'e> ME<'e> {
     }
 }
 
+/// the caller may be a plain thread or a coroutine: either answer from `Coroutine::current()` (the object behind the
+/// reference is never looked at by `timed_wait_just`; the state changes of a coroutine caller happen inside wait_just)
+static mut CALLER_IS_COROUTINE: bool = false;
+#[repr(align(64))]
+struct Blob([u8; 4096]);
+static mut BLOB: Blob = Blob([0x5A; 4096]);
+struct MCUR<'c, Param, Yield, Return>(PhantomData<&'c (Param, Yield, Return)>);
+impl<'c, Param, Yield, Return> MCUR<'c, Param, Yield, Return> {
+    fn current<'current>() -> Option<&'current crate::coroutine::Coroutine<'c, Param, Yield, Return>> {
+        unsafe { if CALLER_IS_COROUTINE { Some(&*(&raw const BLOB).cast::<crate::coroutine::Coroutine<'c, Param, Yield, Return>>()) } else { None } }
+    }
+}
+
 #[kani::proof]
 #[kani::unwind(10)]
 #[kani::stub(crate::common::now, now_monotone)]
 #[kani::stub(crate::net::event_loop::EventLoop::wait_just, ME::wait_just)]
+#[kani::stub(crate::coroutine::Coroutine::current, MCUR::current)]
 fn c14_timed_wait_just() {
+    unsafe { CALLER_IS_COROUTINE = kani::any(); }
     // timed_wait_just reads no field of the loop: an uninitialised object is never dereferenced by the verified body
     let lp: std::mem::MaybeUninit<EventLoop<'static>> = std::mem::MaybeUninit::uninit();
     let lp_ref: &EventLoop<'static> = unsafe { &*lp.as_ptr() };
